@@ -149,13 +149,17 @@ def replay(case):
             names = [nm for nm, _ in corpus.items("thorough")]
             items = [{"key": "x", "corpus": names.index(case["corpus"])}]
         seeds = list(case.get("hashseeds", [])) + [0, 1, 2, 3, 4, 5, 6, 7]
-        outs = []
+        jobs = []
         for i, hs in enumerate(seeds[:10]):
             jf = os.path.join(work, "j%d.json" % i); of = os.path.join(work, "o%d.json" % i)
             order = [0] if len(items) == 1 or i == 0 else list(range(1, len(items))) + [0]
             json.dump({"items": items, "order": order, "drop": bool(i % 2), "tier": "thorough",
-                       "noise": {"0": {"alloc": 1000 * i, "designs": i % 3, "keep": bool(i % 2)}}}, open(jf, "w"))
-            o = run_worker((jf, of, hs))
+                       "noise": {"0": {"alloc": 1000 * i, "designs": i % 3, "keep": bool(i % 2), "arith": i % 2}}}, open(jf, "w"))
+            jobs.append((jf, of, hs))
+        with ThreadPoolExecutor(max_workers=min(len(jobs), par.NCPU)) as ex:  # the ten worker processes run side by side
+            results = list(ex.map(run_worker, jobs))
+        outs = []
+        for o in results:
             if "__error__" in o:
                 raise RuntimeError(o["__error__"])
             outs.append(o["x"])
